@@ -21,7 +21,13 @@ func fieldVal[T any](obj yobj, key string) (v T, ok bool, err error) {
 	}
 
 	if val == nil {
-		return v, true, nil
+		// An explicit null is as good as the zero value for scalars and
+		// arrays, but a nil object cannot be modified, and every caller that
+		// requests an object goes on to do that.  So treat a null object the
+		// same way as an absent one.
+		_, isObj := any(v).(yobj)
+
+		return v, !isObj, nil
 	}
 
 	v, ok = val.(T)
